@@ -573,6 +573,14 @@ impl NetcodeServer {
         log::debug!("Netcode max_clients set to {}", max_clients);
 
         self.max_clients = max_clients;
+
+        // The limit can be raised above the number of slots allocated at construction,
+        // otherwise new clients pass the capacity test but are denied for lack of a free slot.
+        if max_clients > self.clients.len() {
+            let mut clients = std::mem::take(&mut self.clients).into_vec();
+            clients.resize(max_clients, None);
+            self.clients = clients.into_boxed_slice();
+        }
     }
 
     /// Returns current number of clients connected.
